@@ -595,4 +595,77 @@ inductive NCfg.EReach (c : NCfg) : NESt → Prop
 
 def NCfg.efinal (s : NESt) : Bool := NCfg.final s.base
 
+/-! ## master-only jobs (`assemble_master`, used whenever no worker threads are available), with the error path
+
+The calling thread resets the fences, opens front and back, and runs `_work_single`: for every element
+prepare / assemble / scatter / finish, then `combine()` - no fence wait, no mutex.  A throwing task is caught in
+`Worker::operator()`, which opens fence 0 with `false` and returns normally. -/
+
+structure MCfg where
+  cnt : Nat            -- number of elements
+  cell : Nat → Nat
+  ns : Bool            -- need_scatter
+  comb : Bool          -- need_combine
+
+structure MSt where
+  pos : Nat
+  ph : Ph              -- `idle` (between scatters), `insc`, `preComb`, `inComb`, `done`
+  failing : Bool       -- the task threw; `open(false)` still to do
+  failed : Bool        -- the job ended through the error path
+
+def MCfg.after (c : MCfg) (p : Nat) : Ph := if p < c.cnt then .idle else if c.comb then .preComb else .done
+
+def MCfg.init (c : MCfg) : MSt := { pos := 0, ph := c.after 0, failing := false, failed := false }
+
+/-- all events are events of thread 0.  Without scatter the loop body has no observable event: the elements are
+skipped one by one by the internal event `leave` without `enter`. -/
+def MCfg.estep (c : MCfg) (s : MSt) : EEv → Option MSt
+  | .ok (.enter 0 x) =>
+    if s.failing = false ∧ s.ph = .idle ∧ c.ns = true ∧ x = c.cell s.pos then some { s with ph := .insc } else none
+  | .ok (.leave 0 x) =>
+    if s.failing = false ∧ x = c.cell s.pos ∧ ((s.ph = .insc ∧ c.ns = true) ∨ (s.ph = .idle ∧ c.ns = false)) then
+      some { s with pos := s.pos + 1, ph := c.after (s.pos + 1) }
+    else none
+  | .ok (.center 0) => if s.failing = false ∧ s.ph = .preComb then some { s with ph := .inComb } else none
+  | .ok (.cleave 0) => if s.failing = false ∧ s.ph = .inComb then some { s with ph := .done } else none
+  | .fail 0 =>
+    if s.failing = false ∧ s.failed = false ∧ (canFailPh s.ph = true ∨ (s.ph = .done ∧ c.comb = false)) then
+      some { s with failing := true }
+    else none
+  | .fopenF 0 0 => if s.failing = true then some { s with failing := false, failed := true, ph := .done } else none
+  | _ => none
+
+inductive MCfg.EReach (c : MCfg) : MSt → Prop
+  | init : MCfg.EReach c c.init
+  | step {s s' : MSt} (e : EEv) : MCfg.EReach c s → c.estep s e = some s' → MCfg.EReach c s'
+
+def MCfg.efinal (s : MSt) : Bool := s.ph == .done && !s.failing
+
+def MCfg.erun (c : MCfg) : MSt → List EEv → Option MSt
+  | s, [] => some s
+  | s, e :: es => match c.estep s e with | some s' => MCfg.erun c s' es | none => none
+
+/-! ## why a worker with an EMPTY share must still perform the colour's handshake
+
+`_work_colored` runs the fence handshake of every colour even when the worker's share `[elem_beg, elem_end)` of that
+colour is empty (a colour with fewer cells than workers).  The variant below lets such a worker `continue` past the
+colour (`skip t`); `Props/C17.lean` exhibits a run of it that violates the safety property proved for `CCfg.step`. -/
+
+inductive SEv
+  | ok (e : Ev)
+  | skip (t : Nat)      -- worker `t` skips a colour in which it has no cells, without any fence operation
+deriving Repr, DecidableEq
+
+def CCfg.stepSkip (c : CCfg) (s : CSt) : SEv → Option CSt
+  | .ok e => c.step s e
+  | .skip t =>
+    if 1 ≤ t ∧ t ≤ c.n ∧ s.ph t = .front ∧ c.cbeg (s.col t) t = c.cend (s.col t) t then
+      some { s with col := upd s.col t (s.col t + 1),
+                    ph := updP s.ph t (if s.col t + 1 < c.nc then .front else if c.comb then .preComb else .done) }
+    else none
+
+def CCfg.runSkip (c : CCfg) : CSt → List SEv → Option CSt
+  | s, [] => some s
+  | s, e :: es => match c.stepSkip s e with | some s' => CCfg.runSkip c s' es | none => none
+
 end FeatModel.DA
